@@ -2,8 +2,14 @@
 // usage: verif-replay <label> name=hex ...   (field elements as canonical integers in hex)
 extern crate ff_zeroize as ff;
 extern crate pairing_plus as pairing;
-use ff::{Field, PrimeField, SqrtField};
+extern crate digest;
+use ff::{Field, PrimeField, PrimeFieldRepr, SqrtField};
 use pairing::bls12_381::*;
+use pairing::hash_to_field::{BaseFromRO, FromRO};
+use pairing::serdes::SerDes;
+use pairing::signum::{Sgn0Result, Signum0};
+use pairing::{CurveAffine, CurveProjective, EncodedPoint, Engine, GroupDecodingError, SubgroupCheck};
+use digest::generic_array::GenericArray;
 use std::collections::HashMap;
 
 fn fq_from_hex(h: &str) -> Fq {
@@ -32,6 +38,23 @@ fn o2(x: &Fq2, out: &mut Vec<String>) { out.push(fq_hex(&x.c0)); out.push(fq_hex
 fn o6(x: &Fq6, out: &mut Vec<String>) { o2(&x.c0, out); o2(&x.c1, out); o2(&x.c2, out); }
 fn o12(x: &Fq12, out: &mut Vec<String>) { o6(&x.c0, out); o6(&x.c1, out); }
 
+fn hex_bytes(h: &str) -> Vec<u8> { let h = h.trim_start_matches("0x"); (0..h.len() / 2).map(|i| u8::from_str_radix(&h[2 * i..2 * i + 2], 16).unwrap()).collect() }
+fn bytes_hex(b: &[u8]) -> String { b.iter().map(|x| format!("{:02x}", x)).collect() }
+fn err_kind(e: &GroupDecodingError) -> &'static str {
+    match e { GroupDecodingError::NotOnCurve => "NotOnCurve", GroupDecodingError::NotInSubgroup => "NotInSubgroup", GroupDecodingError::CoordinateDecodingError(_, _) => "Coord",
+              GroupDecodingError::UnexpectedCompressionMode => "Mode", GroupDecodingError::UnexpectedInformation => "Info" }
+}
+fn fr_repr(h: &str) -> FrRepr { let h = format!("{:0>64}", h.trim_start_matches("0x")); let mut l = [0u64; 4]; for i in 0..4 { l[3 - i] = u64::from_str_radix(&h[16 * i..16 * (i + 1)], 16).unwrap(); } FrRepr(l) }
+impl Env {
+    fn g1(&self, n: &str) -> G1 { unsafe { transmute::g1_projective(self.fq(&format!("{}__x", n)), self.fq(&format!("{}__y", n)), self.fq(&format!("{}__z", n))) } }
+    fn g2(&self, n: &str) -> G2 { unsafe { transmute::g2_projective(self.fq2(&format!("{}__x", n)), self.fq2(&format!("{}__y", n)), self.fq2(&format!("{}__z", n))) } }
+    fn s(&self, n: &str) -> String { self.0.get(n).cloned().unwrap_or_default() }
+}
+fn out_g1(p: &G1, out: &mut Vec<String>) { let a = p.into_affine(); if a.is_zero() { out.push("inf".into()); } else { let (x, y) = a.as_tuple(); out.push(fq_hex(x)); out.push(fq_hex(y)); } }
+fn out_g2(p: &G2, out: &mut Vec<String>) { let a = p.into_affine(); if a.is_zero() { out.push("inf".into()); } else { let (x, y) = a.as_tuple(); o2(x, out); o2(y, out); } }
+fn out_a1(a: &G1Affine, out: &mut Vec<String>) { if a.is_zero() { out.push("inf".into()); } else { let (x, y) = a.as_tuple(); out.push(fq_hex(x)); out.push(fq_hex(y)); } }
+fn out_a2(a: &G2Affine, out: &mut Vec<String>) { if a.is_zero() { out.push("inf".into()); } else { let (x, y) = a.as_tuple(); o2(x, out); o2(y, out); } }
+
 fn main() {
     let args: Vec<String> = std::env::args().collect();
     let label = args[1].clone();
@@ -56,6 +79,55 @@ fn main() {
         "Fq12_square" => { let mut s = e.fq12("self"); s.square(); o12(&s, &mut out); }
         "Fq12_mul_by_014" => { let mut s = e.fq12("self"); s.mul_by_014(&e.fq2("c0"), &e.fq2("c1"), &e.fq2("c4")); o12(&s, &mut out); }
         "Fq12_inverse" => { match e.fq12("self").inverse() { Some(y) => { tag = "some".into(); o12(&y, &mut out) } None => tag = "none".into() } }
+        // ---- curve operations on arbitrary Jacobian triples (built with the public transmute constructors)
+        "G1_op" | "G2_op" => {
+            let op = e.s("op");
+            macro_rules! grp { ($get:ident, $outp:ident, $Aff:ident) => {{
+                let mut p = e.$get("p");
+                match op.as_str() {
+                    "add" => { p.add_assign(&e.$get("q")); $outp(&p, &mut out); }
+                    "sub" => { p.sub_assign(&e.$get("q")); $outp(&p, &mut out); }
+                    "add_mixed" => { let q = e.$get("q").into_affine(); p.add_assign_mixed(&q); $outp(&p, &mut out); }
+                    "double" => { p.double(); $outp(&p, &mut out); }
+                    "negate" => { p.negate(); $outp(&p, &mut out); }
+                    "eq" => { tag = format!("{}", p == e.$get("q")); }
+                    "mul_assign" => { p.mul_assign(fr_repr(&e.s("k"))); $outp(&p, &mut out); }
+                    "affine_mul" => { let r = p.into_affine().mul(fr_repr(&e.s("k"))); $outp(&r, &mut out); }
+                    "in_subgroup" => { tag = format!("{}", p.into_affine().in_subgroup()); }
+                    "precomp_256" => { let a = p.into_affine(); let mut pre = vec![$Aff::zero(); 256]; a.precomp_256(&mut pre); let r = a.mul_precomp_256(fr_repr(&e.s("k")), &pre); $outp(&r, &mut out); }
+                    _ => { println!("{{\"error\":\"unknown op\"}}"); return; }
+                }
+            }}; }
+            if label == "G1_op" { grp!(g1, out_g1, G1Affine) } else { grp!(g2, out_g2, G2Affine) }
+        }
+        // ---- decoders
+        "decode" => {
+            let b = hex_bytes(&e.s("bytes")); let kind = e.s("kind"); let checked = e.s("checked") == "1";
+            macro_rules! dec { ($E:ident, $outa:ident) => {{ let mut x = $E::empty(); x.as_mut().copy_from_slice(&b);
+                let r = if checked { x.into_affine() } else { x.into_affine_unchecked() };
+                match r { Ok(a) => { tag = "Ok".into(); $outa(&a, &mut out); } Err(er) => { tag = err_kind(&er).into(); } } }}; }
+            match kind.as_str() { "g1u" => dec!(G1Uncompressed, out_a1), "g1c" => dec!(G1Compressed, out_a1), "g2u" => dec!(G2Uncompressed, out_a2), "g2c" => dec!(G2Compressed, out_a2),
+                                  _ => { println!("{{\"error\":\"unknown kind\"}}"); return; } }
+        }
+        "deser" => {
+            let b = hex_bytes(&e.s("bytes")); let kind = e.s("kind"); let compressed = e.s("compressed") == "1";
+            let mut rd: &[u8] = &b[..];
+            macro_rules! de { ($T:ident, $outp:ident) => {{ match $T::deserialize(&mut rd, compressed) { Ok(p) => { tag = format!("Ok:{}", b.len() - rd.len()); $outp(&p, &mut out); } Err(_) => { tag = "Err".into(); } } }}; }
+            match kind.as_str() { "g1" => de!(G1, out_g1), "g2" => de!(G2, out_g2), "g1a" => de!(G1Affine, out_a1), "g2a" => de!(G2Affine, out_a2),
+                                  _ => { println!("{{\"error\":\"unknown kind\"}}"); return; } }
+        }
+        // ---- hash_to_field reductions
+        "from_okm" => {
+            let b = hex_bytes(&e.s("bytes"));
+            if e.s("field") == "fq" { let x = Fq::from_okm(GenericArray::from_slice(&b)); out.push(fq_hex(&x)); }
+            else { let x = Fr::from_okm(GenericArray::from_slice(&b)); let r = x.into_repr(); let mut s = String::from("0x"); for i in (0..4).rev() { s.push_str(&format!("{:016x}", r.0[i])); } out.push(s); }
+        }
+        "final_exp" => { match Bls12::final_exponentiation(&e.fq12("self")) { Some(y) => { tag = "some".into(); o12(&y, &mut out) } None => tag = "none".into() } }
+        "fq2_misc" => {
+            let a = e.fq2("a"); let b = e.fq2("b");
+            tag = format!("{:?}|{:?}|{:?}|{}", a.cmp(&b), a.partial_cmp(&b), a.legendre(), if a.sgn0() == Sgn0Result::Negative { 1 } else { 0 });
+            match a.sqrt() { Some(r) => o2(&r, &mut out), None => out.push("none".into()) }
+        }
         _ => { println!("{{\"error\":\"unknown label\"}}"); return; }
     }
     println!("{{\"tag\":\"{}\",\"out\":[{}]}}", tag, out.iter().map(|s| format!("\"{}\"", s)).collect::<Vec<_>>().join(","));
